@@ -7,10 +7,12 @@ from vlib import core
 from harness import wsgen, wsrun, wsoracle
 
 PROP = "C05"
-PROOF_MODULES = ["Abverif.Proofs.Lemmas.WsFrame", "Abverif.Proofs.Lemmas.WsExt", "Abverif.Proofs.C05", "Abverif.Proofs.Lemmas.WsOps", "Abverif.Proofs.WsCloseLast"]
+PROOF_MODULES = ["Abverif.Proofs.Lemmas.WsFrame", "Abverif.Proofs.Lemmas.WsExt", "Abverif.Proofs.C05", "Abverif.Proofs.Lemmas.WsOps", "Abverif.Proofs.WsCloseLast",
+                 "Abverif.Proofs.Lemmas.WsClean", "Abverif.Proofs.WsCleanClose", "Abverif.Proofs.Lemmas.WsDeadline", "Abverif.Proofs.C17",
+                 "Abverif.Proofs.WsCloseBounded"]
 MANIFEST_ENTRY = {
     "technique": 'Lean 4 invariants by induction over arbitrary operation histories (Ext relation over every engine function) + history correspondence + CloseSpec trace oracle',
-    "text": 'Proved for every configuration and every finite history of API calls, reads, clock advances and connection loss on the model (invariants by induction, using the Ext relation proved for every one of the ~100 engine functions): the state only moves forward (state_monotone); onClose is delivered exactly once, exactly when the transport is gone, and by no other event (onClose_at_most_once, onClose_only_at_lost); after loss the state is CLOSED (lost_closed) and every later operation - late data, timers, API calls - at most raises, nothing is delivered or written (silent_after_onClose, dead_forever); at most one close frame is ever sent, then the connection is CLOSING or CLOSED, and its status code is one RFC 6455 7.4 allows on the wire and its reason at most 123 octets, whether it comes from sendClose, a failure or the echoed peer code (one_close_frame, close_frame_on_wire, closePayload_length); while CLOSING a drop timer is armed unless its timeout is configured off (closing_has_timer; the deadline itself is C17 close_timeout_drops / server_drop_timeout_drops). No data frame follows the close frame: in every reachable state the opcodes of the frames produced so far (history variable sentOps) have no 0/1/2 behind an 8, and a sent close frame implies CLOSING or CLOSED - for sendMessage, prepared messages, the streaming frame API, pings, pongs, timers, failures and replies alike (no_data_frame_after_close, no_data_frame_after_close_connecting; OpsRel proved for every receive-path, timer and close function, DataRel for every send-API function); the history variable is compared on every run with the opcodes of the frames the real objects wrote. With recv_refines_judge (C02) a legal peer close frame is taken in with the peer code and reason and the close is clean. The clauses "clean only if close frames travelled in both directions" and "closed within the timeouts" as whole-history statements are decided by the CloseSpec trace oracle (which also re-checks the close-last clause on the octets written) on real Twisted/asyncio objects over generated histories, with the model compared after every event; four defects found this way were repaired in /repo (9d200e16, 5b48a5ce, a6d81347, 25c063cd).',
+    "text": 'Proved for every configuration and every finite history of API calls, reads, clock advances and connection loss on the model (invariants by induction, using the Ext relation proved for every one of the ~100 engine functions): the state only moves forward (state_monotone); onClose is delivered exactly once, exactly when the transport is gone, and by no other event (onClose_at_most_once, onClose_only_at_lost); after loss the state is CLOSED (lost_closed) and every later operation - late data, timers, API calls - at most raises, nothing is delivered or written (silent_after_onClose, dead_forever); at most one close frame is ever sent, then the connection is CLOSING or CLOSED, and its status code is one RFC 6455 7.4 allows on the wire and its reason at most 123 octets, whether it comes from sendClose, a failure or the echoed peer code (one_close_frame, close_frame_on_wire, closePayload_length); while CLOSING a drop timer is armed unless its timeout is configured off (closing_has_timer; the deadline itself is C17 close_timeout_drops / server_drop_timeout_drops). No data frame follows the close frame: in every reachable state the opcodes of the frames produced so far (history variable sentOps) have no 0/1/2 behind an 8, and a sent close frame implies CLOSING or CLOSED - for sendMessage, prepared messages, the streaming frame API, pings, pongs, timers, failures and replies alike (no_data_frame_after_close, no_data_frame_after_close_connecting; OpsRel proved for every receive-path, timer and close function, DataRel for every send-API function); the history variable is compared on every run with the opcodes of the frames the real objects wrote. Reported clean only if close frames travelled in both directions: every onClose(wasClean=True) in the log of every reachable state was delivered with our close frame sent (clean_close_needs_both, closing_has_sent_close: invariant J proved for every engine function, JP), and the flag is set by no function other than onCloseFrame after the code and reason checks, i.e. on receipt of the peer close frame (closeStateStep_JP). With recv_refines_judge (C02) a legal peer close frame is taken in with the peer code and reason and the close is clean. Closed in bounded time even if the peer never responds: from every reachable CLOSING state with the governing timeouts configured on, once the clock has moved max(closeHandshakeTimeout, serverConnectionDropTimeout) ahead with no further input and the due timers have run, the connection is CLOSED (closing_bounded = closing_has_timer + deadline_bounded: an armed drop timer is due no later than now + its timeout in every reachable state, invariant DB over every engine function + C17 close_timeout_drops / server_drop_timeout_drops; the side condition Quiescent says the run of advanceTo was not cut short by its fuel). The clauses "clean only if close frames travelled in both directions" and "closed within the timeouts" are in addition decided on the real objects by the CloseSpec trace oracle (which also re-checks the close-last clause on the octets written) on real Twisted/asyncio objects over generated histories, with the model compared after every event; four defects found this way were repaired in /repo (9d200e16, 5b48a5ce, a6d81347, 25c063cd).',
     "note": 'Trusted: Lean kernel; model tied by differential execution; framework contract: connectionLost at most once and no input after it; OS socket teardown not modelled.',
 }
 TRUSTED = [
@@ -30,7 +32,9 @@ WIRE_LEGAL = set([1000, 1001, 1002, 1003, 1007, 1008, 1009, 1010, 1011, 1012, 10
 
 def gen_history(rng, tier):
     cfg = wsgen.rand_cfg(rng, timers=True)
-    cfg.pop("pi", None), cfg.pop("pt", None)   # auto-ping timers belong to C17
+    if rng.random() < 0.65:
+        cfg.pop("pi", None), cfg.pop("pt", None)   # auto-ping timers are C17's subject; a third of the histories keep
+        # them, because a ping timeout is one more way a CLOSING connection gets dropped (interaction with the drop timers)
     for k in ("mf", "mm", "af"):
         cfg.pop(k, None)
     need_mask = bool(cfg["srv"])
@@ -303,9 +307,12 @@ def run(ctx):
             if a.startswith("ERROR"):
                 continue
             wire_ops = [f[0] for f in wsoracle.Proj(a, s["cfg"]).written()]
-            if so is None or wire_ops != so[:len(wire_ops)]:
-                res.correspondence_breaks.append({"stream": f"ws.ops sentOps-vs-wire/{fw}", "script": s, "op": 0, "impl": str(wire_ops)[:400], "model": str(so)[:400]})
-            elif len(wire_ops) == len(so):
+            ok = so is not None and wire_ops == so[0][:len(wire_ops)]
+            # closeSent (the variable of one_close_frame / clean_close_needs_both) counts the close frames produced
+            ok = ok and so[1] == so[0].count(8) and wire_ops.count(8) <= so[1]
+            if not ok:
+                res.correspondence_breaks.append({"stream": f"ws.ops sentOps/closeSent-vs-wire/{fw}", "script": s, "op": 0, "impl": str(wire_ops)[:400], "model": str(so)[:400]})
+            elif len(wire_ops) == len(so[0]):
                 n_eq += 1
         res.count(f"sentOps==wire-opcodes/{fw}", n_eq)
         res.count(f"sentOps-longer-than-wire/{fw}", len(scripts) - n_eq)
